@@ -248,6 +248,23 @@ fn run_ops(sh: &Arc<Shared>, h: &Handle, thread: u64, ops: &[Value]) {
     let mut seq = 0u64;
     for op in ops {
         match js(op, "op", "") {
+            "append" if jb(op, "unwinding", false) => {
+                // every append is made by a destructor that runs while the thread unwinds from a panic
+                // (`std::thread::panicking()` is true inside the sink): an entry appended that way counts like any other
+                for _ in 0..ju(op, "n", 1) {
+                    struct OnDrop<F: FnMut()>(F);
+                    impl<F: FnMut()> Drop for OnDrop<F> {
+                        fn drop(&mut self) {
+                            (self.0)()
+                        }
+                    }
+                    let _ = std::panic::catch_unwind(std::panic::AssertUnwindSafe(|| {
+                        let _g = OnDrop(|| do_append(sh, h, thread, &mut seq));
+                        std::panic::resume_unwind(Box::new("harness: unwinding through a scope whose destructor appends"));
+                    }));
+                }
+                sh.hist.log(K::Note("append_while_unwinding".into()));
+            }
             "append" => {
                 for _ in 0..ju(op, "n", 1) {
                     do_append(sh, h, thread, &mut seq);
@@ -1280,6 +1297,30 @@ fn outage_stratum(mut plan: Value) -> Value {
     plan
 }
 
+/// Appends made by destructors while their thread unwinds from a panic: in a tenth of the plans every third append
+/// operation of the producers is made that way.
+fn unwinding_append_stratum(mut plan: Value) -> Value {
+    let h = mix(ju(plan.get("sched").unwrap_or(&Value::Null), "seed", 0), 0xa99e);
+    if h % 10 == 0 {
+        let mut k = h / 10;
+        if let Some(ps) = plan.get_mut("producers").and_then(|p| p.as_array_mut()) {
+            for p in ps {
+                if let Some(ops) = p.as_array_mut() {
+                    for op in ops {
+                        if js(op, "op", "") == "append" {
+                            if k % 3 == 0 {
+                                op["unwinding"] = json!(true);
+                            }
+                            k = k / 3 + 7 * (k % 3) + 1;
+                        }
+                    }
+                }
+            }
+        }
+    }
+    plan
+}
+
 /// A queue that sits idle for a long time - 1 100 / 2 500 / 5 000 flush intervals without an entry - before the
 /// ending of the run (join handle dropped, or forgotten and the last queue handle dropped): one plan in 25.
 fn long_idle_stratum(mut plan: Value) -> Value {
@@ -1350,7 +1391,7 @@ impl Scenario for QueueFifo {
         4
     }
     fn generate(&self, rng: &mut Rng, tier: Tier) -> Value {
-        long_idle_stratum(outage_stratum(huge_timeout_stratum(gen_c01(rng, tier))))
+        long_idle_stratum(outage_stratum(unwinding_append_stratum(huge_timeout_stratum(gen_c01(rng, tier)))))
     }
     fn run(&self, plan: &Value) -> Report {
         let (out, run) = run_queue_plan(plan);
@@ -1586,7 +1627,7 @@ impl Scenario for QueueOverflow {
         "C09"
     }
     fn generate(&self, rng: &mut Rng, tier: Tier) -> Value {
-        outage_stratum(huge_timeout_stratum(gen_c09(rng, tier)))
+        outage_stratum(unwinding_append_stratum(huge_timeout_stratum(gen_c09(rng, tier))))
     }
     fn run(&self, plan: &Value) -> Report {
         let (out, run) = run_queue_plan(plan);
@@ -2352,7 +2393,7 @@ impl Scenario for QueueShutdown {
         4
     }
     fn generate(&self, rng: &mut Rng, tier: Tier) -> Value {
-        long_idle_stratum(outage_stratum(huge_timeout_stratum(gen_c05(rng, tier))))
+        long_idle_stratum(outage_stratum(unwinding_append_stratum(huge_timeout_stratum(gen_c05(rng, tier)))))
     }
     fn run(&self, plan: &Value) -> Report {
         let (out, run) = run_queue_plan(plan);
